@@ -246,6 +246,9 @@ def run(ctx):
     if ga is not None:
         r5(ctx, p, ga)
 
+    # ---- R7
+    r7_write_only(ctx, p)
+
     # ---- R6
     a = p.adts.get("speech::SpeechGenerator")
     if a:
@@ -286,6 +289,69 @@ def run(ctx):
             "(symbolic in the entry cursor s, current cursor k, frame count L and frame period f). These imply that concatenated steps, "
             "one-shot synthesis and finish-after-steps produce the same samples for every call history.")
     return expl, ["rustc MIR"]
+
+
+def r7_write_only(ctx, p):
+    """R7: what a step leaves in the caller's buffer does not depend on what the buffer held: no
+    element of the output buffer is read anywhere in generate_step, Vocoder::synthesize or their
+    closures (the buffer is written, sliced and measured, never loaded)."""
+    from ..expr import resolve_upvars
+    from .c06 import _operands
+    ctx.rule("C02-R7", "the output buffer is write-only: no statement of generate_step / Vocoder::synthesize (closures included) loads an element of the `&mut [f64]` output parameter - a chunk equals the one-shot waveform whatever the caller's buffer held before")
+    n_bodies = 0
+    for fn in (SG + "generate_step", VS):
+        top = cm.body_or_fail(ctx, p, "C02-R7", fn)
+        if top is None:
+            continue
+        outs = [l for l in range(1, top.argc + 1) if top.local_ty(l).replace(" ", "") == "&mut[f64]"]
+        if len(outs) != 1:
+            ctx.fail("C02-R7", fn, "output parameter", "expected exactly one `&mut [f64]` parameter, found %d" % len(outs), top.loc())
+            continue
+        out = ("arg", outs[0], top.local_name(outs[0]))
+        reads = []
+        for b in [top] + list(p.nested(fn)):
+            n_bodies += 1
+            eb = ExprBuilder(b)
+            res = (lambda e, b=b: resolve_upvars(p, b, e)) if b.kind == "Closure" else (lambda e: e)
+
+            def is_elem(e):
+                # out[i] (also through a reslice out[a..b][i]); a sub-slice itself is not a load
+                if e[0] == "idx" and not (e[2][0] == "agg" and "Range" in e[2][1]):
+                    r = e[1]
+                    while r[0] == "idx" or (r[0] == "call" and r[2]):
+                        r = r[1] if r[0] == "idx" else r[2][0]
+                    return res(r) == out
+                return False
+            for bb in range(len(b.blocks)):
+                if b.is_cleanup(bb):
+                    continue
+                for k, st in enumerate(b.blocks[bb]["stmts"]):
+                    if st["k"] != "assign":
+                        continue
+                    for op in _operands(st["rv"]):
+                        if op.get("k") in ("copy", "move") and op["place"]["proj"]:
+                            try:
+                                ex = eb.at(bb, k).op(op)
+                            except Exception:
+                                continue
+                            if is_elem(ex):
+                                reads.append((b, cm.loc_of(st["span"]), show(res(ex))[:60]))
+                t = b.blocks[bb]["term"]
+                if t["k"] == "call":
+                    for a_ in t["args"]:
+                        if a_.get("k") in ("copy", "move") and a_["place"]["proj"]:
+                            try:
+                                ex = eb.at(bb).op(a_)
+                            except Exception:
+                                continue
+                            if is_elem(ex):
+                                reads.append((b, cm.loc_of(t["span"]), show(res(ex))[:60]))
+        if reads:
+            for b, loc, what in reads[:3]:
+                ctx.fail("C02-R7", b.path, "buffer load", "`%s` is read: the samples written by a step depend on what the caller's buffer held (accumulating instead of overwriting?)" % what, loc)
+        else:
+            ctx.ok("C02-R7", "%s: no element of `%s` is ever loaded" % (fn.split("::")[-1], out[2]), top.loc())
+    ctx.anchor("C02-R7", "bodies scanned for loads of the output buffer", n_bodies, 4, None)
 
 
 def r5(ctx, p, ga):
